@@ -90,6 +90,27 @@ def obs_space_of(case):
     return spaces.Box(low=-10, high=10, shape=(case["cdim"],), dtype=np.float32)
 
 
+def arg_copy(x):
+    if isinstance(x, dict):
+        return {k: arg_copy(v) for k, v in x.items()}
+    if torch.is_tensor(x):
+        return x.detach().clone()
+    if isinstance(x, np.ndarray):
+        return x.copy()
+    return x
+
+
+def arg_same(a, b):
+    """did the callee leave the caller's argument exactly as it was (values, dtype, shape, key order)?"""
+    if isinstance(a, dict):
+        return isinstance(b, dict) and list(a) == list(b) and all(arg_same(a[k], b[k]) for k in a)
+    if torch.is_tensor(a):
+        return torch.is_tensor(b) and a.dtype == b.dtype and a.shape == b.shape and bool(torch.equal(a, b))
+    if isinstance(a, np.ndarray):
+        return isinstance(b, np.ndarray) and a.dtype == b.dtype and a.shape == b.shape and bool(np.array_equal(a, b))
+    return a is b or a == b
+
+
 def make_ctx(case, rs, rows=None, for_learn=False):
     """one context (one row per arm) of the case's observation space; for_learn: a float batch as train_bandits stores it"""
     n = case["arms"] if rows is None else rows
@@ -103,6 +124,16 @@ def make_ctx(case, rs, rows=None, for_learn=False):
             d = {k: d[k] for k in reversed(list(d))}
         return {k: torch.as_tensor(v) for k, v in d.items()} if for_learn else d
     x = (rs.randn(n, case["cdim"]) * 1.5).astype(np.float32)
+    if not for_learn:
+        cd = case.get("ctx")
+        if cd == "float64":          # values float32 cannot represent exactly
+            x = rs.randn(n, case["cdim"]) * 1.5 + 1e-9
+        elif cd == "int64":          # integer contexts
+            x = rs.randint(-3, 4, size=(n, case["cdim"])).astype(np.int64)
+        elif cd == "bounds":         # every entry at a bound of the Box
+            x = (10.0 * rs.choice([-1.0, 1.0], size=(n, case["cdim"]))).astype(np.float32)
+        elif cd == "noncontig":      # a non-contiguous view handed in by the caller
+            x = np.asfortranarray(x)
     return torch.as_tensor(x) if for_learn else x
 
 
@@ -151,7 +182,7 @@ def op_kind(op, rec, lam):
     others by name. Re-initialising at a mutation is what the current tree does after every Mutations.mutation call, but
     the property does not demand it, so the check does not either."""
     k = op[0]
-    if k == "archm" and rec.get("skipped"):
+    if k == "act_bad" or (k == "archm" and rec.get("skipped")):
         return "learn"
     if k in ("mut", "archm") or (k == "direct" and op[1] == "arch"):
         sg = rec.get("sigma")
@@ -311,9 +342,12 @@ class LoopRecorder:
                 mu0 = agent.actor(torch.as_tensor(ctx)).detach().cpu().double().numpy().reshape(-1)
             S_before = agent.sigma_inv.detach().clone()
             gamma_used = float(agent.gamma)          # the gamma the agent holds when it decides
+            obs_before = arg_copy(obs)
             with CaptureBonus() as cap:
                 a = me.o_act(agent, obs, action_mask=action_mask)
-            r = {"op": "act", "action": int(a), "G": [[float(x) for x in row] for row in G], "gamma_used": gamma_used}
+            args_modified = [] if arg_same(obs_before, obs) else ["obs"]
+            r = {"op": "act", "action": int(a), "G": [[float(x) for x in row] for row in G], "gamma_used": gamma_used,
+                 "args_modified": args_modified}
             if S_before.shape == (G.shape[1], G.shape[1]):
                 g32 = torch.as_tensor(G)
                 rad = torch.matmul(torch.matmul(g32[:, None, :], S_before), g32[:, :, None])[:, 0, 0]
@@ -546,12 +580,29 @@ class C19(vlib.Driver):
                                    ["mut", "param", 1], S_, ["learn"], ["reload", "load_checkpoint"], S_]))
             cases.append(base(algo=algo_, lr=1e-2, space="image" if algo_ == "ucb" else "dict", head=[2], every=1,
                               ops=[["act", None], ["learn"], S_, ["learn"], S_]))
+        # round 3b: a raising call caught by the caller, then the same agent keeps deciding; arguments must not be modified
+        B1_, B2_, B3_ = ["act_bad", "mask_len"], ["act_bad", "ctx_shape"], ["act_bad", "mask_str"]
+        for algo_, space_ in (("ucb", "vector"), ("ts", "vector"), ("ucb", "dict"), ("ts", "image")):
+            cases.append(base(algo=algo_, space=space_, every=1, lam=rng.choice([0.5, 2.0]),
+                              ops=[B1_, ["act", None], B1_, ["act", [1, 0, 1]], B2_, ["act", None], ["learn"], B3_, ["act", None], ["clone"], B1_,
+                                   ["act", None], ["mut", "param", 1], B2_, ["act", None], ["reload", "load"], B1_, ["act", None]]))
+        # round 3b: dtypes and shapes of what the caller hands in, extreme but legal magnitudes
+        for ctx_, md_, arms_, lam_, gam_ in (("float64", "bool", 3, 2.0, 1.0), ("int64", "float", 4, 0.5, 2.0), ("bounds", "int8", 3, 1.0, 4.0),
+                                             ("noncontig", None, 5, 2.0, 0.25), (None, "bool", 1, 1.0, 1.0), ("float64", None, 6, 0.001, 1.0),
+                                             ("bounds", "float", 2, 1000.0, 1.0), ("int64", None, 2, 0.01, 4.0)):
+            m_ = [1] * arms_
+            if arms_ > 1:
+                m_[0] = 0
+            cases.append(base(algo="ucb" if arms_ % 2 else "ts", arms=arms_, cdim=rng.randint(2, 5), lam=lam_, gamma=gam_, ctx=ctx_, mask_dtype=md_,
+                              head=[rng.randint(1, 4)], every=1,
+                              ops=[["act", None], ["act", m_], ["act", m_, "same"], ["learn"], ["act", None], ["clone"], ["act", m_],
+                                   ["mut", "none", 1], ["act", None], ["act", m_]]))
         # the real training loop (train_bandits) with and without tournament selection + mutation
         nloop = 6 if tier == "quick" else 20
         for i in range(nloop):
             cases.append({"kind": "loop", "algo": "ucb" if i % 2 == 0 else "ts", "arms": rng.randint(2, 4), "cdim": rng.randint(2, 5),
                           "lam": rng.choice([0.5, 1.0, 2.0]), "gamma": 1.0, "enc": [rng.randint(2, 4)], "head": [rng.randint(1, 4)],
-                          "partial": False, "seed": rng.randrange(10 ** 6), "hpo": i % 3 != 0, "pop": 2,
+                          "partial": False, "seed": rng.randrange(10 ** 6), "hpo": i % 3 != 0, "pop": 2, "twice": i % 2 == 1,
                           "episode": rng.randint(3, 6), "gens": rng.randint(2, 3), "every": 3})
         # numpy delete / insert semantics, exhaustive on small arrays
         for op_ in ("delete", "insert"):
@@ -667,9 +718,12 @@ class C19(vlib.Driver):
             crash = None
             try:
                 with ScriptedNodes(1), contextlib.redirect_stdout(io.StringIO()), contextlib.redirect_stderr(io.StringIO()):
-                    pop, _ = train_bandits(env, "verif-bandit", case["algo"], pop, memory, max_steps=case["episode"] * case["gens"],
-                                           episode_steps=case["episode"], evo_steps=case["episode"], eval_steps=2, eval_loop=1,
-                                           tournament=tournament, mutation=mutation, wb=False, verbose=False)
+                    for rep in range(2 if case.get("twice") else 1):
+                        # (twice: the training function is called again on the population it returned, same buffer / helpers)
+                        pop, _ = train_bandits(env, "verif-bandit", case["algo"], pop, memory,
+                                               max_steps=case["episode"] * case["gens"] * (rep + 1),
+                                               episode_steps=case["episode"], evo_steps=case["episode"], eval_steps=2, eval_loop=1,
+                                               tournament=tournament, mutation=mutation, wb=False, verbose=False)
             except Exception as e:
                 crash = f"{type(e).__name__}: {e}"[:300]
         agents = []
@@ -695,6 +749,15 @@ class C19(vlib.Driver):
         ckpt_dir.mkdir(parents=True, exist_ok=True)
         nops = len(case["ops"])
         last_ctx = None
+        muts = {}
+
+        def mutations_for(kind, seed):
+            # one Mutations object per kind is REUSED for all ops of the history (helper state persisting across calls)
+            if not case.get("shared_mut", True):
+                return make_mutations(kind, seed)
+            if kind not in muts:
+                muts[kind] = make_mutations(kind, case["seed"])
+            return muts[kind]
         for oi, op in enumerate(case["ops"]):
             rec = {"op": op[0]}
             try:
@@ -706,6 +769,9 @@ class C19(vlib.Driver):
                         ctx = make_ctx(case, rs)
                     last_ctx = ctx
                     mask = None if op[1] is None else np.array(op[1])
+                    if mask is not None and case.get("mask_dtype"):
+                        mask = mask.astype({"bool": bool, "float": np.float32, "int8": np.int8}[case["mask_dtype"]])
+                    ctx_before, mask_before = arg_copy(ctx), arg_copy(mask)
                     G = features(agent, ctx)
                     mu0 = net_out(agent, ctx)
                     S_before = agent.sigma_inv.detach().clone()
@@ -713,6 +779,8 @@ class C19(vlib.Driver):
                     with CaptureBonus() as cap:
                         a = int(agent.get_action(ctx, action_mask=mask))
                     rec["action"] = a
+                    rec["args_modified"] = [n for n, x, y in (("obs", ctx_before, ctx), ("action_mask", mask_before, mask))
+                                            if not arg_same(x, y)]
                     rec["bonus"] = cap.bonus(case["algo"])
                     rec["values"] = cap.values_list()
                     rec["mask"] = op[1]
@@ -723,23 +791,43 @@ class C19(vlib.Driver):
                         g32 = torch.as_tensor(G)
                         rad = torch.matmul(torch.matmul(g32[:, None, :], S_before), g32[:, :, None])[:, 0, 0]
                         rec["radicand"] = [(float(x) if np.isfinite(x) else None) for x in rad]
+                elif op[0] == "act_bad":
+                    # a call that must raise, caught by the caller, after which the SAME agent is used again
+                    ctx = make_ctx(case, rs)
+                    before = agent.sigma_inv.detach().clone()
+                    nb = (int(agent.numel), float(agent.lamb))
+                    try:
+                        if op[1] == "mask_len":        # raises after the per-arm gradients were taken, before the update
+                            agent.get_action(ctx, action_mask=np.ones(case["arms"] + 1, dtype=int))
+                        elif op[1] == "ctx_shape":     # raises in the forward pass
+                            bad = {k: v[:, :1] for k, v in ctx.items()} if isinstance(ctx, dict) else ctx[..., :1]
+                            agent.get_action(bad)
+                        else:                          # a mask that is not an array at all
+                            agent.get_action(ctx, action_mask="101")
+                        rec["raised"] = None
+                    except Exception as e:
+                        rec["raised"] = type(e).__name__
+                    rec["state_unchanged"] = bool(before.shape == agent.sigma_inv.shape and torch.equal(before, agent.sigma_inv)
+                                                  and nb == (int(agent.numel), float(agent.lamb)))
                 elif op[0] == "learn":
                     B = 8
                     exp = {"obs": make_ctx(case, rs, rows=B, for_learn=True),
                            "reward": torch.as_tensor(rs.randint(0, 2, size=(B, 1)).astype(np.float32))}
+                    exp_before = arg_copy(exp)
                     rec["loss"] = float(agent.learn(exp))
+                    rec["args_modified"] = [] if arg_same(exp_before, exp) else ["experiences"]
                 elif op[0] == "mut" and op[1] in ("rl_hp_lamb", "rl_hp_gamma"):
-                    m = make_mutations("rl_hp", case["seed"] + oi)
+                    m = mutations_for("rl_hp", case["seed"] + oi)
                     with ScriptedHP(op[1][len("rl_hp_"):]):
                         agent = m.mutation([agent])[0]
                     rec["mut"] = str(agent.mut)
                 elif op[0] == "mut":
-                    m = make_mutations(op[1], case["seed"] + oi)
+                    m = mutations_for(op[1], case["seed"] + oi)
                     with ScriptedNodes(op[2]):
                         agent = m.mutation([agent])[0]
                     rec["mut"] = str(agent.mut)
                 elif op[0] == "direct":
-                    m = make_mutations("none", case["seed"] + oi)
+                    m = mutations_for("none", case["seed"] + oi)
                     with ScriptedNodes(op[2]):
                         if op[1] == "param":
                             agent = m.parameter_mutation(agent)
@@ -752,7 +840,7 @@ class C19(vlib.Driver):
                     if op[1] not in agent.actor.mutation_methods:
                         rec["skipped"] = True          # this encoder kind has no such method
                     else:
-                        m = make_mutations("none", case["seed"] + oi)
+                        m = mutations_for("none", case["seed"] + oi)
                         with ScriptedNodes(op[2]), ScriptedArchMethod(op[1]):
                             agent = m.architecture_mutate(agent)
                         rec["mut"] = str(agent.mut)
@@ -767,7 +855,7 @@ class C19(vlib.Driver):
                         how = "remove"
                     rec["how"] = how
                     self._resize_actor(agent, how, op[2])
-                    m = make_mutations("none", case["seed"] + oi)
+                    m = mutations_for("none", case["seed"] + oi)
                     m._reinit_bandit_grads(agent, agent.actor, old)
                     m.reinit_opt(agent)        # as architecture_mutate does after the resize
                 elif op[0] == "clone":
@@ -1010,6 +1098,11 @@ class C19(vlib.Driver):
                 V("exp-layer-stale",
                   f"{where}: agent.exp_layer is not actor.get_output_dense() (a stale copy): get_action would read "
                   "gradients of a layer that is not part of the network", op[1] if op[0] == "reload" else op[0])
+            if rec.get("args_modified"):
+                V("args-modified", f"{where}: the call changed its caller's argument(s) {rec['args_modified']} in place", op[0])
+            if op[0] == "act_bad" and not rec.get("state_unchanged", True):
+                V("failed-call-changed-state", f"{where}: get_action raised {rec.get('raised')} ({op[1]}) but sigma_inv / numel / lamb were "
+                  "changed by the failed call; the agent is used again afterwards", op[1])
             if op[0] == "act":
                 a = rec["action"]
                 if op[1] is not None and not (0 <= a < len(op[1]) and op[1][a] == 1):
